@@ -13,7 +13,11 @@
 
   Hypotheses.  `ValidParams` / `SigmaLen` / `SigmaLeMax` / `SizeOK` (defined, with the reason for every
   conjunct, in `Proofs/C07Run.lean` next to the loop invariants) list every hypothesis the proofs
-  force; each theorem takes only what it needs.  After the repairs /verif/fixes/C07-*.diff
+  force; each theorem takes only what it needs.  `SizeOK n m inner` constrains the inner solver on
+  *well-sized* calls only (`SizedCall n m`: `x` of size `n`; `y`, Σ, the `err_z` buffer of size `m`):
+  there it hands `x`, `y`, `err_z` back with the sizes it got.  The loop is proved to make only such
+  calls (`step_call_sized`) from `x.length = n`, `y.length = m` and `SigmaLen` — nothing is assumed
+  about an inner solver on ill-sized buffers.  After the repairs /verif/fixes/C07-*.diff
   (penalties never decrease, ε₀ = max(initial_tolerance, tolerance), single-factor mode uses the
   largest entry of the caller's Σ, a caller Σ with a non-positive entry is not used) `penalty_mono`
   needs no parameter hypothesis at all and `penalty_le_max` keeps exactly the property's exemption
@@ -45,7 +49,8 @@ local notation "INIT" => almInit P nan inf acc0 prob.m (Option.isSome Sig0) (Opt
 theorem history_sigma (Q : Vec α → Prop) (hnil : Q [])
     (hQ : ∀ Δ first e eo ne neo Sg, e.length = Sg.length → Q Sg →
       Q (updatePenaltyWeights P Δ first e eo ne neo Sg))
-    (hlen : SigmaLen prob.m Sig0) (h0 : Q (INIT).Sig_curr) (hin : SizeOK inner) :
+    (hlen : SigmaLen prob.m Sig0) (h0 : Q (INIT).Sig_curr) {n : Nat} (hin : SizeOK n prob.m inner)
+    (hx : x.length = n) (hy : y.length = prob.m) :
     ∀ h ∈ (RUN).history, Q h.1.sigma := by
   rcases run_cases nan inf acc0 accAdd P prob x y Sig0 inner with ⟨_, hr⟩ | ⟨_, _, hr⟩ | ⟨_, _, hr⟩ <;>
     rw [hr]
@@ -57,34 +62,37 @@ theorem history_sigma (Q : Vec α → Prop) (hnil : Q [])
     rw [loop_history_eq, List.mem_map] at hh
     obtain ⟨s, hs', rfl⟩ := hh
     obtain ⟨x', y', hI, he⟩ := steps_sigInv nan inf acc0 accAdd P prob x y Sig0 inner Q hQ hlen.hlen h0 hin
-      _ s hs'
+      hx hy _ s hs'
     rw [he, mkStep_call]
-    exact hI.2
+    exact hI.1.2
 
 /-- **penalty_pos.**  Every penalty factor passed to the inner solver is positive — for every
     `penalty_update_factor`, every `max_penalty`, every caller-supplied Σ (one with a non-positive
     component is not used).  Forced: `0 < min_penalty ≤ max_penalty` (automatic initial penalty). -/
 theorem penalty_pos (hmin : 0 < P.min_penalty) (hmm : P.min_penalty ≤ P.max_penalty)
-    (hlen : SigmaLen prob.m Sig0) (hin : SizeOK inner) :
+    (hlen : SigmaLen prob.m Sig0) {n : Nat} (hin : SizeOK n prob.m inner)
+    (hx : x.length = n) (hy : y.length = prob.m) :
     ∀ h ∈ (RUN).history, ∀ σ ∈ h.1.sigma, 0 < σ :=
   history_sigma nan inf acc0 accAdd P prob x y Sig0 inner AllPos (fun _ h => by cases h)
     (fun Δ first e eo ne neo Sg hl h => upw_pos P Δ first e eo ne neo Sg hl h) hlen
-    (by rw [almInit_Sig]; exact uniformize_pos P _ (initSig0_pos nan P prob Sig0 hmin hmm)) hin
+    (by rw [almInit_Sig]; exact uniformize_pos P _ (initSig0_pos nan P prob Sig0 hmin hmm)) hin hx hy
 
 /-- **penalty_le_max.**  No penalty factor exceeds `max_penalty` *unless the caller's initial ones
     do*: `initial_penalty ≤ max_penalty` and `SigmaLeMax` (the caller's Σ, if any) are exactly that
     exemption.  Forced besides: `min_penalty ≤ max_penalty`. -/
 theorem penalty_le_max (hmm : P.min_penalty ≤ P.max_penalty) (hip : P.initial_penalty ≤ P.max_penalty)
-    (hs : SigmaLeMax P Sig0) (hlen : SigmaLen prob.m Sig0) (hin : SizeOK inner) :
+    (hs : SigmaLeMax P Sig0) (hlen : SigmaLen prob.m Sig0) {n : Nat} (hin : SizeOK n prob.m inner)
+    (hx : x.length = n) (hy : y.length = prob.m) :
     ∀ h ∈ (RUN).history, ∀ σ ∈ h.1.sigma, σ ≤ P.max_penalty :=
   history_sigma nan inf acc0 accAdd P prob x y Sig0 inner (AllLe P) (fun _ h => by cases h)
     (fun Δ first e eo ne neo Sg hl h => upw_le P Δ first e eo ne neo Sg hl h) hlen
-    (by rw [almInit_Sig]; exact uniformize_le P _ (initSig0_le nan P prob Sig0 hmm hip hs)) hin
+    (by rw [almInit_Sig]; exact uniformize_le P _ (initSig0_le nan P prob Sig0 hmm hip hs)) hin hx hy
 
 /-- **penalty_mono.**  Between consecutive outer iterations no penalty factor decreases — with no
     hypothesis on the parameters or on the caller's Σ (values above `max_penalty`,
     `penalty_update_factor < 1`, non-uniform Σ in single-factor mode included). -/
-theorem penalty_mono (hlen : SigmaLen prob.m Sig0) (hin : SizeOK inner)
+theorem penalty_mono (hlen : SigmaLen prob.m Sig0) {n : Nat} (hin : SizeOK n prob.m inner)
+    (hx : x.length = n) (hy : y.length = prob.m)
     (pre : List (InnerCall α × InnerResult α S)) (a b : InnerCall α × InnerResult α S)
     (post : List (InnerCall α × InnerResult α S)) (h : (RUN).history = pre ++ a :: b :: post)
     (j : Nat) : vget a.1.sigma j ≤ vget b.1.sigma j := by
@@ -93,20 +101,21 @@ theorem penalty_mono (hlen : SigmaLen prob.m Sig0) (hin : SizeOK inner)
   · exact absurd (congrArg List.length h) (by simp)
   · exact absurd (congrArg List.length h) (by simp; omega)
   · obtain ⟨i, st, st', x', y', hI, hc, rfl, rfl⟩ := history_pair nan inf acc0 accAdd P prob x y Sig0 inner
-      (SigInv (Uniform P) prob.m)
-      ⟨almInit_len nan inf acc0 P prob Sig0 hlen.hlen, by rw [almInit_Sig]; exact uniformize_uniform P _⟩
+      (SigSzInv (Uniform P) n prob.m)
+      ⟨⟨almInit_len nan inf acc0 P prob Sig0 hlen.hlen, by rw [almInit_Sig]; exact uniformize_uniform P _⟩,
+        hx, hy⟩
       (fun i st st' x y hI hc => sigInv_step accAdd P prob Sig0 inner (Uniform P)
         (fun Δ first e eo ne neo Sg _ h => upw_uniform P Δ first e eo ne neo Sg h) hin i st st' x y hI hc)
       _ pre a b post h
     simp only [mkStep_call]
     rw [(step_cont P prob accAdd _ _ inner hc).2.2.2.2]
-    exact upw_mono _ _ _ _ _ _ _ _ (step_errz_len accAdd P prob Sig0 inner hin i st x' y' hI.1) hI.2 j
+    exact upw_mono _ _ _ _ _ _ _ _ (step_errz_len accAdd P prob Sig0 inner hin i st x' y' hI.sz) hI.1.2 j
 
 /-- **penalty_grows_only_where_needed (i).**  A penalty factor changes between two consecutive
     inner solves only if the slack error of the first exceeds the dual tolerance
     (`if (norm_e <= params.dual_tolerance) return;`).  No parameter validity is needed. -/
 theorem penalty_unchanged_when_feasible (hlen : SigmaLen prob.m Sig0)
-    (hin : SizeOK inner)
+    {n : Nat} (hin : SizeOK n prob.m inner) (hx : x.length = n) (hy : y.length = prob.m)
     (pre : List (InnerCall α × InnerResult α S)) (a b : InnerCall α × InnerResult α S)
     (post : List (InnerCall α × InnerResult α S)) (h : (RUN).history = pre ++ a :: b :: post)
     (j : Nat) (hne : vget b.1.sigma j ≠ vget a.1.sigma j) :
@@ -116,8 +125,8 @@ theorem penalty_unchanged_when_feasible (hlen : SigmaLen prob.m Sig0)
   · exact absurd (congrArg List.length h) (by simp)
   · exact absurd (congrArg List.length h) (by simp; omega)
   · obtain ⟨i, st, st', x', y', hI, hc, rfl, rfl⟩ := history_pair nan inf acc0 accAdd P prob x y Sig0 inner
-      (LenInv prob.m) (almInit_len nan inf acc0 P prob Sig0 hlen.hlen)
-      (fun i st st' x y hI hc => lenInv_step accAdd P prob Sig0 inner hin i st st' x y hI hc)
+      (SzInv n prob.m) ⟨almInit_len nan inf acc0 P prob Sig0 hlen.hlen, hx, hy⟩
+      (fun i st st' x y hI hc => szInv_step accAdd P prob Sig0 inner hin i st st' x y hI hc)
       _ pre a b post h
     simp only [mkStep_call] at hne
     rw [(step_cont P prob accAdd _ _ inner hc).2.2.2.2] at hne
@@ -130,7 +139,7 @@ theorem penalty_unchanged_when_feasible (hlen : SigmaLen prob.m Sig0)
     test is on the ∞-norms, as the code has it.  (The first update, after the very first inner
     solve, has `first_iter = true` and may change every component.) -/
 theorem penalty_grows_only_where_needed (hlen : SigmaLen prob.m Sig0)
-    (hin : SizeOK inner)
+    {n : Nat} (hin : SizeOK n prob.m inner) (hx : x.length = n) (hy : y.length = prob.m)
     (pre : List (InnerCall α × InnerResult α S)) (z a b : InnerCall α × InnerResult α S)
     (post : List (InnerCall α × InnerResult α S)) (h : (RUN).history = pre ++ z :: a :: b :: post)
     (j : Nat) (hne : vget b.1.sigma j ≠ vget a.1.sigma j) :
@@ -143,10 +152,10 @@ theorem penalty_grows_only_where_needed (hlen : SigmaLen prob.m Sig0)
   · exact absurd (congrArg List.length h) (by simp; omega)
   · obtain ⟨i, st, st', st'', x', y', hI, hc, rfl, hc2, rfl, rfl⟩ :=
       history_triple nan inf acc0 accAdd P prob x y Sig0 inner
-      (LenInv prob.m) (almInit_len nan inf acc0 P prob Sig0 hlen.hlen)
-      (fun i st st' x y hI hc => lenInv_step accAdd P prob Sig0 inner hin i st st' x y hI hc)
+      (SzInv n prob.m) ⟨almInit_len nan inf acc0 P prob Sig0 hlen.hlen, hx, hy⟩
+      (fun i st st' x y hI hc => szInv_step accAdd P prob Sig0 inner hin i st st' x y hI hc)
       _ pre z a b post h
-    have hI' := lenInv_step accAdd P prob Sig0 inner hin i st st' x' y' hI hc
+    have hI' := szInv_step accAdd P prob Sig0 inner hin i st st' x' y' hI hc
     simp only [mkStep_call] at hne
     rw [(step_cont P prob accAdd _ _ inner hc2).2.2.2.2] at hne
     have := (upw_changed _ _ _ _ _ _ _ _
@@ -216,7 +225,8 @@ theorem tolerance_antitone_ge_final (h0 : 0 ≤ P.tolerance) (h2 : P.tolerance_u
       rw [he]; exact hI
     · intro pre a b post h
       obtain ⟨i, st, st', x', y', hI, hc, rfl, rfl⟩ := history_pair nan inf acc0 accAdd P prob x y Sig0
-        inner (fun st => P.tolerance ≤ st.eps) hJ0 hJ _ pre a b post h
+        inner (fun st _ _ => P.tolerance ≤ st.eps) hJ0 (fun i st st' x y h hc => hJ i st st' x y h hc)
+        _ pre a b post h
       simp only [mkStep_call, almInnerOpts]
       rw [(step_cont P prob accAdd _ _ inner hc).2.2.2.2]
       simp only [fmaxS_eq_max]
@@ -291,7 +301,7 @@ theorem interrupted_returns_immediately
     | cons b post' =>
       exfalso
       obtain ⟨i, st, st', x', y', _, hc, rfl, _⟩ := history_pair nan inf acc0 accAdd P prob x y Sig0
-        inner (fun _ => True) trivial (fun _ _ _ _ _ _ _ => trivial) _ pre h b post' hh
+        inner (fun _ _ _ => True) trivial (fun _ _ _ _ _ _ _ => trivial) _ pre h b post' hh
       exact (step_cont P prob accAdd _ _ inner hc).1 hi
     | nil =>
       refine ⟨rfl, ?_⟩
@@ -443,7 +453,7 @@ theorem stop_visible_after_inner_returns_interrupted
       | cons b post' =>
         exfalso
         obtain ⟨i, st, st', x', y', _, hc, rfl, _⟩ := history_pair nan inf acc0 accAdd P prob x y Sig0
-          inner (fun _ => True) trivial (fun _ _ _ _ _ _ _ => trivial) _ pre h b post' hh
+          inner (fun _ _ _ => True) trivial (fun _ _ _ _ _ _ _ => trivial) _ pre h b post' hh
         have := step_cont_stop P prob accAdd _ _ inner hc
         rw [this] at hs; cases hs
   subst hpost
@@ -583,7 +593,10 @@ example : ValidParams (⟨1/1024, 1/256, 1/2, 1, 4, 1/4096, 1/4, 1/4, 16, 256, 1
   unfold ValidParams; norm_num
 example : SigmaLen 2 (some [(1/2 : ℚ), 2]) ∧ SigmaLeMax exP (some [1/2, 2]) := by
   unfold SigmaLen SigmaLeMax exP; norm_num
-example : SizeOK exInner := by intro c; simp [exInner]
+/-- `exInner` keeps all sizes on well-sized calls (here `n = 1`, `m = 2`, as in the runs below) -/
+theorem exInner_sizeOK : SizeOK 1 2 exInner :=
+  ⟨fun c h => by simp [exInner, h.errBuf], fun c h => by simp [exInner, h.x],
+   fun c h => by simp [exInner, h.y]⟩
 example : ∀ c, (exInner c).status = .Converged → (exInner c).eps ≤ c.opts.tolerance := by
   intro c h; simp [exInner] at h
 
@@ -633,6 +646,39 @@ example : exRunStop.stats.status = .Interrupted ∧ exRunStop.stats.outer_iterat
     (some [1, 2]) exInnerStop [(exC0, exR0)] (exC1, exR1) [] exRunStop_history rfl
   have h5 := h.2.2.2.2 (by decide)
   exact ⟨h5.2.2.2.2.2.1 (by simp [exR1]), h.2.1, h.2.2.1, h5.2.2.2.2.1 rfl, h5.2.1⟩
+
+theorem exInnerStop_sizeOK : SizeOK 1 2 exInnerStop :=
+  ⟨fun c h => by simp [exInnerStop, h.errBuf], fun c h => by simp [exInnerStop, h.x],
+   fun c h => by simp [exInnerStop, h.y]⟩
+
+/-- **`penalty_pos` / `penalty_le_max`, closed** on that run: parameter validity, `SigmaLen`,
+    `SigmaLeMax`, `SizeOK 1 2` (well-sized calls only), `x.length = 1`, `y.length = 2` all discharged -/
+example : (∀ h ∈ exRunStop.history, ∀ σ ∈ h.1.sigma, 0 < σ) ∧
+    (∀ h ∈ exRunStop.history, ∀ σ ∈ h.1.sigma, σ ≤ 256) :=
+  ⟨penalty_pos (0:ℚ) 0 (0:Nat) (· + ·) exP4 exProb [0] [50, -50] (some [1, 2]) exInnerStop
+      (by norm_num [exP4, exP]) (by norm_num [exP4, exP]) rfl exInnerStop_sizeOK rfl rfl,
+   penalty_le_max (0:ℚ) 0 (0:Nat) (· + ·) exP4 exProb [0] [50, -50] (some [1, 2]) exInnerStop
+      (by norm_num [exP4, exP]) (by norm_num [exP4, exP])
+      (by intro σ hσ; simp at hσ; rcases hσ with rfl | rfl <;> norm_num [exP4, exP]) rfl
+      exInnerStop_sizeOK rfl rfl⟩
+
+/-- **`penalty_mono` and `penalty_unchanged_when_feasible`, closed** on the two consecutive inner
+    solves of that run: Σ = [1, 2] → [4, 8]; it changed, so the first solve's slack error exceeded
+    the dual tolerance -/
+example : (∀ j, vget exC0.sigma j ≤ vget exC1.sigma j) ∧ exP4.dual_tolerance < normInf exR0.errz :=
+  ⟨fun j => penalty_mono (0:ℚ) 0 (0:Nat) (· + ·) exP4 exProb [0] [50, -50] (some [1, 2]) exInnerStop rfl
+      exInnerStop_sizeOK rfl rfl [] (exC0, exR0) (exC1, exR1) [] exRunStop_history j,
+   penalty_unchanged_when_feasible (0:ℚ) 0 (0:Nat) (· + ·) exP4 exProb [0] [50, -50] (some [1, 2]) exInnerStop
+      rfl exInnerStop_sizeOK rfl rfl [] (exC0, exR0) (exC1, exR1) [] exRunStop_history 0
+      (by simp [exC0, exC1, vget])⟩
+
+/-- `SizeOK` says nothing about ill-sized calls: an inner solver that *drops* the `err_z` buffer
+    whenever it is handed a Σ of the wrong size still satisfies it (the former, unrelativised
+    `∀ c, errz.length = errBuf.length` excluded it) -/
+example : SizeOK 1 2 (fun c : InnerCall ℚ =>
+    if c.sigma.length = 2 then exInner c else { exInner c with errz := [] }) :=
+  ⟨fun c h => by simp [h.sigma, exInner, h.errBuf], fun c h => by simp [h.sigma, exInner, h.x],
+   fun c h => by simp [h.sigma, exInner, h.y]⟩
 
 /-- the same facts by plain evaluation -/
 example : exRunStop.stats.status = .Interrupted ∧ exRunStop.stats.outer_iterations = 2 ∧
